@@ -16,8 +16,17 @@ Shapes are generated as *templates* (pure data) and instantiated inside the
 graph function, because unit-generator leaves can only be created there.
 Template grammar:
     ('num', v) | ('ugen', rate) | ('tup', [leaf, ...]) | ('str', s) |
-    ('list', [template, ...], as_channel_list: bool)
+    ('obj', kind, n) | ('list', [template, ...], as_channel_list: bool)
+
+('obj', kind, n) is the n-th object of a small pool of long-lived NON-unit
+values that the library converts to a number when they are used as a unit
+input (kind 'buffer' / 'bus': a Buffer stands for its buffer number, a Bus for
+its index).  They are created once per worker by the maker registered in
+OBJ_MAKER (the model itself does not know sc3); like numbers they are
+scalars of the law and may be shared between builds.
 """
+
+OBJ_MAKER = [None]          # set by the harness: f(kind, n) -> object
 
 
 def is_list(x):
@@ -64,7 +73,9 @@ def gen_leaf(rng, numfn, p_ugen=0.25, p_tuple=0.0, rates=('audio',)):
                         for _ in range(k)])
     if r < p_tuple + p_ugen:
         return ('ugen', rng.choice(rates))
-    return ('num', numfn(rng))
+    v = numfn(rng)
+    # a number function may answer a ready leaf template (object leaves)
+    return v if isinstance(v, tuple) else ('num', v)
 
 
 def gen_template(rng, numfn, p_ugen=0.25, p_tuple=0.05, rates=('audio',),
@@ -128,6 +139,8 @@ def instantiate(t, make_ugen, make_chlist):
         return t[1]
     if k == 'ugen':
         return make_ugen(t[1])
+    if k == 'obj':
+        return OBJ_MAKER[0](t[1], t[2])
     if k == 'tup':
         return tuple(instantiate(x, make_ugen, make_chlist) for x in t[1])
     if k == 'list':
